@@ -629,10 +629,12 @@ class FromArray(PartitionsFiltered, BlockwiseIO):
 
     def _filtered_task(self, index: int):
         data = self.frame[slice(index * self.chunksize, (index + 1) * self.chunksize)]
-        if index == len(self.divisions) - 2:
-            idx = range(self.divisions[index], self.divisions[index + 1] + 1)
+        # ``index`` refers to the unfiltered partitions
+        divisions = self._divisions()
+        if index == len(divisions) - 2:
+            idx = range(divisions[index], divisions[index + 1] + 1)
         else:
-            idx = range(self.divisions[index], self.divisions[index + 1])
+            idx = range(divisions[index], divisions[index + 1])
 
         if is_series_like(self._meta):
             return (type(self._meta), data, idx, self._meta.dtype, self._meta.name)
